@@ -35,18 +35,18 @@ theorem dq_string_is_string_token (st : LexSt) (cs b r : List Char) (hb : strBod
     ∃ v, lexStep st ('"' :: cs) = mk .STRING v st (b.length + 2) 0 r := by
   refine ⟨Str.replace (Str.replace (Str.replace (Str.replace b ['\\', 'n'] ['\n'] none) ['\\', 't'] ['\t'] none)
             ['\\', '\''] ['\''] none) ['\\', '"'] ['"'] none, ?_⟩
-  simp [lexStep, matchString, isQuote, hb]
+  simp [lexStep, lexBracket, lexWord, matchString, isQuote, hb]
 
 theorem sq_string_is_string_token (st : LexSt) (cs b r : List Char) (hb : strBody '\'' cs = some (b, r)) :
     ∃ v, lexStep st ('\'' :: cs) = mk .STRING v st (b.length + 2) 0 r := by
   refine ⟨Str.replace (Str.replace (Str.replace (Str.replace b ['\\', 'n'] ['\n'] none) ['\\', 't'] ['\t'] none)
             ['\\', '\''] ['\''] none) ['\\', '"'] ['"'] none, ?_⟩
-  simp [lexStep, matchString, isQuote, hb]
+  simp [lexStep, lexBracket, lexWord, matchString, isQuote, hb]
 
 /-- … and a comment produces no token at all -/
 theorem comment_no_token (st : LexSt) (cs : List Char) :
     ∃ st', lexStep st ('#' :: cs) = .skip st' (dropLine cs) := by
-  exact ⟨{ st with pos := st.pos + 1 + (cs.length - (dropLine cs).length) }, by simp [lexStep, matchString, isQuote, classify]⟩
+  exact ⟨{ st with pos := st.pos + 1 + (cs.length - (dropLine cs).length) }, by simp [lexStep, lexBracket, lexWord, lexPunct, matchString, isQuote, classify]⟩
 
 /-- the evaluator asks the scope stack for exactly the name written in the node -/
 theorem nameop_looks_up_its_name (n : Name) (vmi : Nat) (k : List Frame) (w : World) (vm : VM)
